@@ -450,17 +450,6 @@ func (c *c14) modelAtState(ev gmsl.PDU, a *stateAnswer, allowValidation bool) *a
 	return v
 }
 
-// citesOutsideState reports whether ev cites an auth event that is not part
-// of the state it is checked against.
-func citesOutsideState(ev gmsl.PDU, a *stateAnswer) bool {
-	for _, x := range ev.AuthEventIDs() {
-		if _, ok := a.state[x]; !ok {
-			return true
-		}
-	}
-	return false
-}
-
 func (c *c14) opAtState() {
 	r, t := c.r, c.t
 	target, kind := c.pickTarget(false)
@@ -500,9 +489,20 @@ func (c *c14) judgeAtState(suffix string, target gmsl.PDU, a *stateAnswer, model
 	if model.fast {
 		r.Probe("atstate_fast_path")
 	}
-	sig := "cited_in_state"
-	if a != nil && !a.idsErr && citesOutsideState(target, a) {
-		sig = "cites_event_outside_state"
+	// signature: does the verdict coincide with checking the event against only
+	// those of its cited auth events that are part of the state (instead of
+	// against the state)?
+	sig := "other"
+	if a != nil && !a.idsErr && !a.stErr && model.err == "" && !model.fast {
+		var subset []gmsl.PDU
+		for _, x := range target.AuthEventIDs() {
+			if e := a.state[x]; e != nil {
+				subset = append(subset, e)
+			}
+		}
+		if bySubset := allowedBy(target, subset) == nil; bySubset != model.allowed && bySubset == (err == nil) {
+			sig = "judged_on_cited_auth_events_only"
+		}
 	}
 	if err == nil && !wantOK {
 		if model.err != "" {
@@ -805,18 +805,24 @@ func (c *c14) opLoad() {
 		r.Violate("C14", "load_empty_result", sig, "LoadAndVerify returned %d result(s) with neither an event nor an error (%d inputs, %d malformed, %d duplicate listings)", emptyRes, len(raws), c.countMalformed(b), dups)
 		return // known finding: the remaining comparisons assume one result per input
 	}
-	r.Check(nilEvents == c.countMalformed(b), "C14", "load_parse_class", "malformed", "LoadAndVerify reported %d unparsable inputs, %d were malformed", nilEvents, c.countMalformed(b))
-	inCount := map[string]int{}
+	// one result per input: a malformed input gives an error without an event;
+	// an event listed n times gives n results, of which all but one may be
+	// errors without an event
+	inCount := b.listed()
+	deficit := 0
 	for _, e := range b.entries {
-		if e.ev != nil {
-			inCount[e.id()]++
+		if e.ev == nil {
+			continue
+		}
+		in, got := inCount[e.id()], gotCount[e.id()]
+		if got < 1 || got > in {
+			r.Violate("C14", "load_not_a_permutation", "count", "input event %s listed %d times has %d results", c.desc(e.id()), in, got)
 		}
 	}
-	for _, e := range b.entries {
-		if e.ev != nil && gotCount[e.id()] != inCount[e.id()] {
-			r.Violate("C14", "load_not_a_permutation", "count", "input event %s listed %d times has %d results", c.desc(e.id()), inCount[e.id()], gotCount[e.id()])
-		}
+	for id, in := range inCount {
+		deficit += in - gotCount[id]
 	}
+	r.Check(nilEvents == c.countMalformed(b)+deficit, "C14", "load_parse_class", "malformed", "LoadAndVerify reported %d inputs without an event; %d were malformed and %d duplicate listings have no result of their own", nilEvents, c.countMalformed(b), deficit)
 	if ch, an := checkTopo(seq, byAuth); ch != "" {
 		r.Violate("C14", "load_order", fmt.Sprintf("byAuth=%v", byAuth), "LoadAndVerify placed %s before its ancestor %s", c.desc(ch), c.desc(an))
 	}
